@@ -219,6 +219,9 @@ func (vc *FuncVC) axioms(s *State) {
 		if !act {
 			continue
 		}
+		if ax.Pkg != "" && vc.eng.pkgByName(ax.Pkg) == nil {
+			continue
+		}
 		f := vc.tr(e, ax.E)
 		vc.emit("(assert %s) ; axiom %s", f.S, ax.Label)
 		vc.assumedUsed["axiom "+ax.Label+": "+ax.Src] = true
